@@ -485,3 +485,67 @@ Proof. reflexivity. Qed.
 Theorem direct_command_keeps prog st line :
   start_command prog st (CDirect line) = (prog ++ SEndProg :: line, set_pc st (S (length prog))).
 Proof. reflexivity. Qed.
+
+(* ------------------------------------------------------------------ RUN forgets the history *)
+
+(* every command of the session came to an end (finished or stopped with a message) within the fuel *)
+Fixpoint session_completes (prog : list stmt) (cmds : list command) (fuel : nat) (st : state) : bool :=
+  match cmds with
+  | [] => true
+  | c :: rest =>
+      let (code, st0) := start_command prog st c in
+      let '(_, o, st') := run_st code fuel st0 in
+      match o with
+      | OutOfFuel => false
+      | Unmodelled => false
+      | _ => session_completes prog rest fuel st'
+      end
+  end.
+
+(* what RUN and the commands after it print does not depend on the state RUN is typed in ... *)
+Theorem run_forgets_state prog rest fuel st1 st2 :
+  run_session prog (CRun :: rest) fuel st1 = run_session prog (CRun :: rest) fuel st2.
+Proof. reflexivity. Qed.
+
+(* ... so, for EVERY history of commands that came to an end, the output of the session is the output of that
+   history followed by the output that RUN and the later commands give in a fresh session *)
+Theorem run_forgets_history prog cmds2 fuel : forall cmds1 st,
+  session_completes prog cmds1 fuel st = true ->
+  run_session prog (cmds1 ++ CRun :: cmds2) fuel st =
+  run_session prog cmds1 fuel st ++ run_session prog (CRun :: cmds2) fuel (init_at 0).
+Proof.
+  induction cmds1 as [|c cmds1 IH]; intros st Hc.
+  - simpl app. apply (run_forgets_state prog cmds2 fuel st (init_at 0)).
+  - cbn [app]. cbn [run_session session_completes] in *.
+    destruct (start_command prog st c) as [code st0].
+    destruct (run_st code fuel st0) as [[t o] st'].
+    destruct o; try discriminate.
+    + rewrite (IH st' Hc). rewrite app_assoc. reflexivity.
+    + rewrite (IH st' Hc). rewrite app_assoc. reflexivity.
+Qed.
+
+(* the state a history of commands leaves behind *)
+Fixpoint session_state (prog : list stmt) (cmds : list command) (fuel : nat) (st : state) : state :=
+  match cmds with
+  | [] => st
+  | c :: rest =>
+      let (code, st0) := start_command prog st c in
+      let '(_, _, st') := run_st code fuel st0 in
+      session_state prog rest fuel st'
+  end.
+
+(* a session is the composition of its parts: the later commands see exactly the state the earlier ones left *)
+Theorem session_app prog cmds2 fuel : forall cmds1 st,
+  session_completes prog cmds1 fuel st = true ->
+  run_session prog (cmds1 ++ cmds2) fuel st =
+  run_session prog cmds1 fuel st ++ run_session prog cmds2 fuel (session_state prog cmds1 fuel st).
+Proof.
+  induction cmds1 as [|c cmds1 IH]; intros st Hc.
+  - reflexivity.
+  - cbn [app]. cbn [run_session session_completes session_state] in *.
+    destruct (start_command prog st c) as [code st0].
+    destruct (run_st code fuel st0) as [[t o] st'].
+    destruct o; try discriminate.
+    + rewrite (IH st' Hc). rewrite app_assoc. reflexivity.
+    + rewrite (IH st' Hc). rewrite app_assoc. reflexivity.
+Qed.
